@@ -200,7 +200,7 @@ func (t *Array) Get(idx Int) core.Value {
 		return None
 	}
 
-	if int(idx) > l {
+	if idx < 0 || int(idx) > l {
 		return None
 	}
 
@@ -232,6 +232,15 @@ func (t *Array) Slice(from, to Int) *Array {
 
 	if to > length {
 		to = length
+	}
+
+	// positions before the first element select nothing
+	if from < 0 {
+		from = 0
+	}
+
+	if to < from {
+		to = from
 	}
 
 	result := new(Array)
